@@ -170,6 +170,7 @@ func H_C02(v *zzverif.T) {
 		}
 		return m
 	}
+	zzUseExportedHelpers(v)
 	m := load()
 	if m == nil {
 		return
